@@ -3,6 +3,8 @@ import SkgVerif.Lemmas.Classes
 import SkgVerif.Lemmas.Pairs
 import SkgVerif.Model.Estimators
 import SkgVerif.Gen.EstimatorsExec
+import SkgVerif.Gen.Tables
+import SkgVerif.Lemmas.CressieReal
 /-!
 # C01 — experimental variogram = estimator over exactly the pairs of each lag class
 
@@ -133,6 +135,14 @@ theorem C01_matheron_doc (xs : List Rat) :
     intro t _
     exact (pow_two t).symm
 
+/-- Cressie-Hawkins as coded (generated, over ℝ) = `(1/N Σ √x)^4 / (2 (0.457 + 0.494/N + 0.045/N²))` -/
+theorem C01_cressie_doc (x : List ℝ) :
+    Gen.cressieGenR x =
+      ((1 / (x.length : ℝ)) * (x.map Real.sqrt).sum) ^ 4 /
+        (2 * (457 / 1000 + (247 / 500) / (x.length : ℝ) + (9 / 200) / (x.length : ℝ) ^ 2)) ∧
+    Gen.cressieGuards = ["n == 0"] :=
+  ⟨cressieGenR_eq x, by decide⟩
+
 theorem C01_matheron_guard : Gen.matheronGuards = ["x.size == 0"] := by decide
 
 /-- Dowd as coded = `2.198 · median² / 2` -/
@@ -174,5 +184,13 @@ theorem C01_genton_doc_partial (xs : List Rat) (heven : xs.length % 2 = 0) :
 /-- … and differ for odd ones (D15): N = 3, the coded quantile level is 0.625 instead of 1/3 -/
 theorem C01_genton_doc_counterexample : genton [0, 1, 3] ≠ gentonDoc [0, 1, 3] := by
   decide +kernel
+
+
+/-- the lag-class loop in the source (`Variogram._calc_groups`) uses the half-open intervals the
+model `groupAux` transcribes: `d >= lo & d < hi` over `zip([0] + edges, edges)`, start value −1 -/
+theorem C01_source_loop :
+    Gen.groupLoopLower = ">=" ∧ Gen.groupLoopUpper = "<" ∧
+    Gen.groupLoopIter = "enumerate(zip([0] + list(bin_edges), bin_edges))" ∧
+    Gen.groupLoopInit = ["np.ones(len(d), dtype=int) * -1"] := by decide
 
 end Skg
